@@ -25,7 +25,7 @@ func (w *world) converged() (bool, string) {
 			if !ok || tv != o.Val {
 				return false, fmt.Sprintf("reconciler %d: object %d has val=%d in the table but the target holds %v (present %v)", rc.idx, id, o.Val, tv, ok)
 			}
-			k := kindOf(o.S[rc.idx])
+			k := kindOf(w.statusOf(o, rc.idx))
 			if k != "Done" {
 				if w.refreshEvery > 0 && (k == "Refreshing") {
 					continue
